@@ -5,6 +5,7 @@ from common import hexs
 
 ID = "C14"
 DRIVER = "cluster"
+IMPL_ENV = {"NUN_ELECTION_TIMEOUT": "20"}
 MODEL_FILES = ["Model/Base.v", "Model/Parse.v", "Model/Node.v", "Model/Pending.v", "Model/Oplog.v", "Model/Cluster.v"]
 THEOREMS = ["C14_secondary_never_fans_out", "C14_secondary_repl_one_node", "C14_secondary_poll_never_fans_out", "C14_fan_out_spec", "C14_fan_out_exact", "C14_leader_repl_one", "C14_primary_write_queues", "C14_replicated_line_applies"]
 STRENGTH = {t: "proof-unbounded" for t in THEOREMS}
@@ -34,7 +35,7 @@ def gen_cases(tier, seed):
             for node in names:
                 for c in CMDS:
                     ops = list(base) + [CC("n1", 1, "set a 0"), ["settle"], CC(node, 0, c), ["settle"], ["settle"]]
-                    cases.append(("s%d" % cid, hdr + ["S=%d" % (nn - 1)], ops)); cid += 1
+                    cases.append(("s%d" % cid, hdr + ["S=%d" % (nn - 1), "T=20"], ops)); cid += 1
     dist["single"] = cid
     # resolve of a real conflict on a clustered arbiter database, arbiter on the primary or on a secondary
     for nn in (2, 3):
@@ -44,7 +45,7 @@ def gen_cases(tier, seed):
                 ops = list(base) + [CC(arb, 1, "arbiter"), CC("n1", 0, "set k a"), ["settle"], CC("n1", 0, "set k b"), ["settle"],
                                     CC(writer, 0, "set-safe k 0 c"), ["settle"], ["settle"],
                                     ["rsv", arb, "1", "0", hexs("R")], ["settle"], ["settle"]]
-                cases.append(("a%d" % cid, hdr + ["S=%d" % (nn - 1)], ops)); cid += 1
+                cases.append(("a%d" % cid, hdr + ["S=%d" % (nn - 1), "T=20"], ops)); cid += 1
                 dist["resolve"] += 1
     # a secondary is told that another member is the primary now (what a 'set-primary' from the winner of an election does):
     # the old primary stays in its member table as a secondary; afterwards every command again
@@ -55,15 +56,35 @@ def gen_cases(tier, seed):
             for c in ["set a 1", "set-safe a 0 x", "remove a", "increment c", "create-user u pw", "snapshot false", "get a"]:
                 ops = list(base) + [CC("n1", 1, "set a 0"), ["settle"], CC(told, 0, "set-primary %s" % new), ["settle"], ["settle"],
                                     CC(told, 0, c), ["settle"], ["settle"]]
-                cases.append(("e%d" % cid, hdr + ["S=2"], ops)); cid += 1
+                cases.append(("e%d" % cid, hdr + ["S=2", "T=20"], ops)); cid += 1
                 dist["after_primary_change"] += 1
+    # fail-over: the primary dies, a node that had joined as a secondary wins the election; afterwards every command again
+    # (resolve on an arbiter database included) on both survivors
+    dist["after_fail_over"] = 0
+    for strat in ("none", "arbiter"):
+        names, hdr, base = setup(3, strat)
+        cmds = ["set a 1", "set-safe a 0 x", "remove a", "increment c", "snapshot false", "get a", "resolve 5 d1 a 1 v"]
+        for node in ("n2", "n3"):
+            for c in cmds:
+                ops = list(base) + [CC("n1", 1, "set a 0"), ["settle"], ["kill", "n1"], ["settle", "3000"], ["settle"],
+                                    CC(node, 0, c), ["settle"], ["settle"]]
+                cases.append(("o%d" % cid, hdr + ["S=1", "T=20"], ops)); cid += 1
+                dist["after_fail_over"] += 1
+        # a real conflict resolved after the fail-over
+        if strat == "arbiter":
+            for arb in ("n2", "n3"):
+                ops = list(base) + [CC("n1", 1, "set k a"), ["settle"], ["kill", "n1"], ["settle", "3000"], ["settle"],
+                                    CC(arb, 1, "arbiter"), CC("n2", 0, "set k b"), ["settle"], CC("n3", 0, "set-safe k 0 c"), ["settle"], ["settle"],
+                                    ["rsv", arb, "1", "0", hexs("R")], ["settle"], ["settle"]]
+                cases.append(("o%d" % cid, hdr + ["S=1", "T=20"], ops)); cid += 1
+                dist["after_fail_over"] += 1
     for i in range(n):
         nn = rng.choice([2, 3])
         names, hdr, base = setup(nn, rng.choice(["none", "newer"]))
         ops = list(base)
         for _ in range(rng.randint(2, 8)):
             ops += [CC(rng.choice(names), rng.choice([0, 1]), rng.choice(CMDS)), ["settle"], ["settle"]]
-        cases.append(("r%d" % i, hdr + ["S=%d" % (nn - 1)], ops))
+        cases.append(("r%d" % i, hdr + ["S=%d" % (nn - 1), "T=20"], ops))
     dist["random"] = n
     return cases, dist
 
@@ -78,6 +99,7 @@ def oracle(case, io, mo):
     bound = 1 + 2 * S
     pending_x = 0
     last_cmd = None
+    after_kill = False
     formed = None
     prev_links = None
     for i, op in enumerate(case[2]):
@@ -86,12 +108,26 @@ def oracle(case, io, mo):
         reply, inb, x, dump = obs[i]
         links = {(m.group(1), m.group(2)): (int(m.group(3)), int(m.group(4))) for m in LINK_RE.finditer(dump.split(" links=[")[-1])} if " links=[" in dump else {}
         nodes = parse_dump(dump)
+        if nodes:
+            # the bound follows the number of live nodes (a node that died is printed as GONE and not parsed)
+            S = len(nodes) - 1
+            bound = 1 + 2 * S
         if reply == "PANIC":
             fails.append(("panic", "step %d" % i))
         if op[0] in ("cmd", "rsv"):
             last_cmd = (i, line_of(op) if op[0] == "cmd" else "resolve (arbiter's answer)", op[1])
             pending_x = x
             started_settled = True
+        elif op[0] == "kill":
+            # the election that follows a node's death is not a client operation (C07 judges it); the next settle only
+            # has to reach silence
+            last_cmd = None
+            pending_x = 0
+            after_kill = True
+        elif op[0] == "settle" and after_kill:
+            if reply != "Settled":
+                fails.append(("fail-over-does-not-settle", "step %d: %s" % (i, reply)))
+            after_kill = False
         elif op[0] == "settle":
             if reply != "Settled":
                 fails.append(("self-sustaining-exchange", "step %d: after '%s' on %s the cluster was still exchanging messages after 200 scheduler rounds (%d crossings)" % (i, last_cmd[1] if last_cmd else "?", last_cmd[2] if last_cmd else "?", x)))
